@@ -43,6 +43,18 @@ ANGLE = {
           "safe'), or a compatibility shim for a newer numpy (a deprecated call replaced by its documented successor whose "
           "semantics differ in a corner). It must look like a commit a reviewer could approve, keep the suite at 98 passed, and "
           "need something specific - but VALID and inside the property's quantifier - to manifest."),
+    "10": ("Considered covered already: everything simple, numeric tolerances, dtypes, hidden state, size-dependent fast paths, "
+           "truthiness slips, enum/dispatch drift, helper drift, translation/scaling, smallest inputs, extreme option values, "
+           "interfaces between stages, input normalisation and over-correcting fixes. Pick ONE of these three themes, whichever "
+           "fits this property best: (a) COPY-PASTE BETWEEN SIBLINGS - the library has many near-twin functions (the `_points` "
+           "variants next to the (x, y) variants, lower next to upper hull, left / right / linear ranking, shortest next to "
+           "perpendicular, original next to adjusted refinement): a fix or tidy-up applied to one twin and pasted into the other "
+           "with one token left unadapted; (b) DEFAULT ARGUMENT VALUES and module-level constants - a default changed, two "
+           "defaults of cooperating functions drifting apart, a constant (eps, a magic number, a percentage versus a fraction) "
+           "'corrected'; (c) PYTHON SEMANTICS - integer versus true division, round() to even, int() truncation towards zero on "
+           "negatives, negative indices wrapping around, slice bounds, list multiplication aliasing, iterating over something "
+           "being modified, sorted() versus .sort(), `a or b` on arrays. It must look like a commit a reviewer could approve, "
+           "keep the suite at 98 passed, and need something specific but VALID (inside the property's quantifier) to manifest."),
 }[rnd]
 props = [json.loads(l) for l in open("/verif/properties.jsonl")]
 for p in props:
